@@ -71,4 +71,33 @@ Section Composite.
        eenc := fun v => v;
        edec := fun b => if (Nat.leb (length b) 4) && valid_bytes b then Some b else None;
        edefault := [] |}.
+
+  (* milhouse::List<u64, U64> used as an ELEMENT (a nested collection, as in List<List<u64,_>,_>):
+     variable size; SSZ bytes = the u64 values concatenated (a multiple of 8, at most 512 bytes);
+     root = mix_in_length(merkleize(pack(values), limit 16 chunks), number of values). In the
+     implementation hashing one such element walks an inner tree of depth 4 and forks (rayon::join)
+     inside the outer leaf's hash computation. *)
+  Fixpoint zh_el (d : nat) : digest := match d with O => 0 | S d' => H (zh_el d') (zh_el d') end.
+  Fixpoint chunks32 (fuel : nat) (b : bytes) : list digest :=
+    match fuel with
+    | O => []
+    | S f => match b with [] => [] | _ => le_num (firstn 32 b) :: chunks32 f (skipn 32 b) end
+    end.
+  Fixpoint mroot (d : nat) (cs : list digest) : digest :=
+    match d with
+    | O => match cs with c :: _ => c | [] => 0 end
+    | S d' => match cs with
+              | [] => H (zh_el d') (zh_el d')
+              | _ => H (mroot d' (firstn (Nat.pow 2 d') cs)) (mroot d' (skipn (Nat.pow 2 d') cs))
+              end
+    end.
+  Definition nl_ok (b : bytes) : bool :=
+    Nat.eqb (Nat.modulo (length b) 8) 0 && Nat.leb (length b) 512 && valid_bytes b.
+  Definition ek_nl : ekind bytes :=
+    {| eeqb := bytes_eqb; epd := None; epenc := le_num;
+       etroot := fun v => H (mroot 4 (chunks32 17 v)) (N.of_nat (Nat.div (length v) 8));
+       efixed := None;
+       eenc := fun v => v;
+       edec := fun b => if nl_ok b then Some b else None;
+       edefault := [] |}.
 End Composite.
